@@ -90,6 +90,28 @@ pub fn run(ctx: Ctx) -> Report {
                     bad.push((h2, "correct_suffix_only"));
                 }
             }
+            // deviations in two (or four) bytes whose differences cancel (same mask, +1/-1, swapped bytes)
+            for a in 0..32usize {
+                for b in (a + 1)..32 {
+                    if quick && (a * 31 + b) % 5 != 0 {
+                        continue;
+                    }
+                    let mask = 1u8 << ((a + b) % 8);
+                    let mut h = expected;
+                    h[a] ^= mask;
+                    h[b] ^= mask;
+                    bad.push((h, "two_bytes_same_mask"));
+                    let mut h2 = expected;
+                    h2[a] = h2[a].wrapping_add(1);
+                    h2[b] = h2[b].wrapping_sub(1);
+                    bad.push((h2, "two_bytes_plus_minus_one"));
+                    if expected[a] != expected[b] {
+                        let mut h3 = expected;
+                        h3.swap(a, b);
+                        bad.push((h3, "two_bytes_swapped"));
+                    }
+                }
+            }
             for related in ["correct horse battery stapl", "correct horse battery staple ", "Correct horse battery staple", "", "correct horse battery staple\0", "correct horse battery staple\n", "orrect horse battery staple"] {
                 bad.push((Sha256::digest(related.as_bytes()).into(), "hash_of_related_password"));
             }
@@ -179,7 +201,7 @@ pub fn run(ctx: Ctx) -> Report {
 pub fn meta() -> CheckMeta {
     CheckMeta {
         level: "exploration",
-        rule: "function level: the real authenticate_client reading from a MemPipe in 5 fragmentation classes (whole, 1-byte drip, split after the hash, split inside the length, random with spurious Pending): all 256 single-bit flips of the right hash, single-byte deviations at every position (all 32x255 in the thorough tier), correct k-byte prefixes/suffixes for k=0..31, hashes of related passwords, all-zero/all-one => must be rejected; valid preambles with declared padding at the boundaries + 500 random lengths (thorough: all 65536) followed by a sentinel frame => Ok and the sentinel must be exactly what is left; every truncation length of valid preambles => not Ok and no hang after EOF. End to end (real Server::listen + TcpProxyHandler, raw TLS client): a bad preamble followed by a perfectly valid Settings+SYN+destination+data must cause no Dial event, no target accept and no plaintext reply; positive controls must get a session. distinct_nontrivial = distinct (preamble, fragmentation class).".into(),
+        rule: "function level: the real authenticate_client reading from a MemPipe in 5 fragmentation classes (whole, 1-byte drip, split after the hash, split inside the length, random with spurious Pending): all 256 single-bit flips of the right hash, single-byte deviations at every position (all 32x255 in the thorough tier), correct k-byte prefixes/suffixes for k=0..31, two-byte deviations whose differences cancel (same XOR mask, +1/-1, swapped bytes), hashes of related passwords, all-zero/all-one => must be rejected; valid preambles with declared padding at the boundaries + 500 random lengths (thorough: all 65536) followed by a sentinel frame => Ok and the sentinel must be exactly what is left; every truncation length of valid preambles => not Ok and no hang after EOF. End to end (real Server::listen + TcpProxyHandler, raw TLS client): a bad preamble followed by a perfectly valid Settings+SYN+destination+data must cause no Dial event, no target accept and no plaintext reply; positive controls must get a session. distinct_nontrivial = distinct (preamble, fragmentation class).".into(),
         assumptions: vec!["SHA-256 from the sha2 crate is used independently to compute expected hashes".into()],
         floors: vec![("wrong_hash_preambles", 1000), ("valid_preambles", 400), ("truncated_preambles", 300), ("e2e_bad_preambles", 15), ("e2e_positive_controls", 4)],
         exhaustive: false,
